@@ -113,11 +113,8 @@ struct Monitor
         c.note("history=" + describeFrames(fed, fed.size() - 1));
         if (fed.size() % (hookEvery > 1 ? 19997 : 17) == 16)
         {
-            ASAM::CMP::Decoder copy(dec);
-            ASAM::CMP::Decoder other;
-            other = copy;
-            dec = std::move(other);
-            c.count("decoder_copies");
+            if (continueOnCopy(dec))
+                c.count("decoder_copies");
         }
         auto got = decodeCopy(dec, f);
         bool tecmp = !f.empty() && f[0] == 0;
@@ -620,6 +617,10 @@ inline void massOpenCase(Ctx& c, long j)
         if (k >= 40 && ((k - 40) % 9 == 0 || (k - 40) % 13 == 0))
         {
             size_t i2 = ((k - 40) * 7919) % n;
+            // (in every other case the stray segment carries the counter the aborting frame used, i.e. exactly the value a
+            // reassembly that wrongly survived the abort is waiting for)
+            if (k % 4 < 2)
+                eps[i2].seq = static_cast<uint16_t>(eps[i2].seq - 1);
             H.push_back(c17::letterFrame((k % 2) ? c17::L_L : c17::L_M, eps[i2], r));
             if (k % 2 == 0)
                 H.push_back(c17::letterFrame(c17::L_L, eps[i2], r));
